@@ -27,11 +27,11 @@ def x_obligations(tier):
         o.append(Obl(f"C06-desync-chars[{pre!r}+c+{mid!r}+d+{suf!r}]", M, "from_path_chars", env={"VF_PRE": pre, "VF_MID": mid, "VF_SUF": suf}, timeout=T, path_timeout=200, expect="find",
                      family="C06-mut", bound="two independent holes, each one arbitrary character (all code points); bug-hunt: exhaustion not expected in the quick budget"))
     for cfg in ("local", "server"):
-        seq = "/r/H/A/x/v1/x_v1.*;/r/H/A/x/v1/O/x_v1.*;/r/H/A/x/v1/x_v1.m;/r/H/A/x/v1/O/x_v1.g;/r/H/S/q1/v1/q1_v1.>;/r/H/S/q1/v1/E/q1_v1.>;/r/H/A/x/v1;/r/H/S/q1/v1/E/q1_o_v1.*"
+        seq = "/r/H/A/x/v1/x_v1.*;/r/H/A/x/v1/O/x_v1.*;/r/H/A/x/v1/x_v1.m;/r/H/A/x/v1/O/x_v1.g;/r/H/S/q1/v1/q1_v1.>;/r/H/S/q1/v1/E/q1_v1.>;/r/H/A/x/v1;/r/H/S/q1/v1/E/q1_o_v1.*;/r/H/A/X/v1;/r/H/A/X/v1/X_v1.m"
         if cfg == "server":
             seq = seq.replace("/r/", "/z/")
         o.append(Obl(f"C06-seq[{cfg}]", M, "from_path_seq", env={"VF_CONFIG": cfg, "VF_SEQ": seq, "VF_CACHES": "1"}, timeout=T, family="C06-seq",
-                     bound="two paths resolved one after the other (caches on), both from an 8-entry pool that contains paths of different types with equal fields (search-symbol extension)"))
+                     bound="two paths resolved one after the other (caches on), both from a 10-entry pool that contains paths of different types with equal fields (search-symbol extension)"))
     o.append(Obl("C06-reach", M, "reach_from_path", env={"VF_N": "1", "VF_PRE": "/r/H/A/"}, timeout=150, expect="refute", family="C06-twin"))
     return o
 
